@@ -24,7 +24,7 @@ from harness import c01_enc as enc
 from harness import c01_gen as gen
 
 PROP_MODULES = ["OV.Props.C01"]
-HEADER_EXTRA = "from typing import Tuple\n" + gen.HELPERS_SRC
+HEADER_EXTRA = "from typing import Tuple\nfrom onnxscript import opset11, opset12, opset13\n" + gen.HELPERS_SRC
 CORPUS = core.VERIF / "harness" / "corpus_c01.jsonl"
 
 
@@ -168,7 +168,8 @@ def semantic_oracle(fn, meta: dict, input_sets, stats: Counter) -> list[dict]:
         tensors = [feeds[n] for n, _ in meta["params"]]
         # 1. plain Python over NumPy (independent interpreter of the source)
         try:
-            voices["numpy"] = norm_outputs(gen.numpy_run(meta["src"], feeds, attrs, [n for n, _ in meta["params"]]))
+            voices["numpy"] = norm_outputs(gen.numpy_run(meta["src"], feeds, attrs, [n for n, _ in meta["params"]],
+                                                         free=gen.free_env(meta)))
         except Exception as e:
             voices["numpy"] = f"ERR {type(e).__name__}: {str(e)[:120]}"
         # 2. eager
@@ -245,13 +246,14 @@ class Pipeline:
         self.modnames.append(modname)
         return fn, err
 
-    def model_answers(self, srcs: list[str]) -> list[str]:
+    def model_answers(self, srcs: list[str], envs: list | None = None) -> list[str]:
         lines = []
         idx = []
         out = [""] * len(srcs)
         for i, s in enumerate(srcs):
             try:
-                lines.append("convert " + enc.encode_function(s, functions=gen.HELPER_PARAMS))
+                lines.append("convert " + enc.encode_function(s, functions=gen.HELPER_PARAMS,
+                                                              env=envs[i] if envs else None))
                 idx.append(i)
             except enc.Unmodelled as e:
                 out[i] = f"unmodelled {e}"
@@ -344,15 +346,16 @@ def process_batch(task: dict) -> dict:
     stats = pipe.stats
     out = {"ties": [], "prop_failures": [], "struct_failures": [], "refusals": []}
     try:
-        fn, err = pipe.compile([(m["name"], m["src"]) for m in progs])
-        answers = pipe.model_answers([m["src"] for m in progs])
+        fn, err = pipe.compile([(m["name"], gen.wrapped_source(m)) for m in progs])
+        answers = pipe.model_answers([m["src"] for m in progs], [gen.lean_env(m) for m in progs])
         wf_lines, wf_idx = [], []
         recs = []
         # hypothesis of `liveness_sound`: the model's fuel-bounded liveness fixpoints have converged
         st_lines, st_idx = [], []
         for m, ans in zip(progs, answers):
             if ans.startswith("ok ") and not m.get("near_miss"):
-                st_lines.append("stable " + enc.encode_function(m["src"], functions=gen.HELPER_PARAMS))
+                st_lines.append("stable " + enc.encode_function(m["src"], functions=gen.HELPER_PARAMS,
+                                                                env=gen.lean_env(m)))
                 st_idx.append(m)
         for m, a in zip(st_idx, pipe.drv.ask(st_lines)):
             stats["liveness_fixpoints_checked"] += 1
@@ -619,6 +622,20 @@ def main(run: core.Run) -> None:
         n_prog = int(n_prog * 1.5)
     corpus = load_corpus()
     tasks, progs = generate_tasks(run, n_prog, n_inputs, 20)
+    # dedicated streams: script functions made by factories (closure variables vs module globals), two opset
+    # versions in one function (Softmax 11 vs 13), inner loops whose trip count shrinks to zero
+    extra = [gen.closure_program(run.rng, f"c{k}") for k in range(run.size(60, 400))]
+    extra += [gen.mixed_opset_program(run.rng, f"m{k}") for k in range(run.size(24, 160))]
+    nests = [gen.shrinking_nest_program(run.rng, f"t{k}") for k in range(run.size(30, 240))]
+    seen_src = set()
+    extra = [m for m in extra if not (m["src"] in seen_src or seen_src.add(m["src"]))]
+    for k in range(0, len(extra), 20):
+        tasks.append({"progs": extra[k:k + 20], "seed": run.rng.randrange(1 << 30), "n_inputs": n_inputs})
+    nest_inputs = [{"feeds": {"A": [1.0, 2.0, 3.0], "n": n}} for n in (0, 1, 2, 3, 4)]
+    for m in nests:
+        m["inputs"] = nest_inputs
+    for k in range(0, len(nests), 20):
+        tasks.append({"progs": nests[k:k + 20], "seed": run.rng.randrange(1 << 30), "n_inputs": n_inputs})
     if corpus:
         tasks.insert(0, {"progs": corpus, "seed": 7, "n_inputs": 3})
     results = run_batches(run, tasks, workers_for(run))
